@@ -355,6 +355,12 @@ Proof.
   destruct (expr_has F G L e t && negb (is_void t)); [|reflexivity]. simpl. rewrite N.eqb_refl. reflexivity.
 Qed.
 
+Lemma rw_void_variable_ill F G ret z s0 s0' inl L : rw_void_variable z s0 = Some s0' -> wt_stmt F G ret inl L s0' = None.
+Proof.
+  unfold rw_void_variable. destruct s0; try discriminate. intros H; injection H as <-. simpl.
+  rewrite andb_false_r. reflexivity.
+Qed.
+
 Lemma rw_set_loopvar_ill F G ret s0 s0' inl L : rw_set_loopvar s0 = Some s0' -> wt_stmt F G ret inl L s0' = None.
 Proof.
   unfold rw_set_loopvar. destruct s0; try discriminate. intros H; injection H as <-. simpl.
@@ -516,6 +522,9 @@ Proof.
   - apply Any; [discriminate|intros; eapply rw_wrong_return_ill; eauto].
   - apply Any; [discriminate|intros; eapply rw_return_novalue_ill; eauto].
   - apply Any; [intros; eapply rw_cond_e_ill; eauto|intros; eapply rw_cond_s_ill; eauto].
+  - apply Any; [discriminate|intros; eapply rw_void_variable_ill; eauto].
+  - discriminate.
+  - discriminate.
 Qed.
 
 (* ------------------------------------------------------------------ the program *)
@@ -535,9 +544,9 @@ Proof.
   - rewrite (IH _ _ _ H E). apply andb_false_r.
 Qed.
 
-Theorem mut_ill_typed_any : forall r pos p p', mut r pos p = Some p' -> wt p' = false.
+Theorem mut_in_body_ill : forall r pos p p', mut_in_body r pos p = Some p' -> wt p' = false.
 Proof.
-  intros r pos p p'. unfold mut.
+  intros r pos p p'. unfold mut_in_body.
   destruct (nth_error (pfns p) (p_fn pos)) as [d|] eqn:En; [|discriminate].
   destruct (mut_body r pos p (p_fn pos) d) as [b'|] eqn:Eb; [|discriminate].
   intros H; injection H as <-. unfold wt. cbn [pglobals pfns pmain].
@@ -545,6 +554,41 @@ Proof.
   rewrite (replace_nth_sigs _ _ d (with_body d b') En eq_refl).
   pose proof (mut_body_ill _ _ _ _ _ _ Eb) as Hf.
   rewrite (replace_nth_forallb _ _ _ d _ En Hf). rewrite andb_false_r. reflexivity.
+Qed.
+
+Lemma mut_dup_param_ill : forall pos p p', mut_dup_param pos p = Some p' -> wt p' = false.
+Proof.
+  intros pos p p'. unfold mut_dup_param.
+  destruct (nth_error (pfns p) (p_fn pos)) as [d|] eqn:En; [|discriminate].
+  destruct (dup_param (N.to_nat (p_arg pos)) (fparams d)) as [ps'|] eqn:Ed; [|discriminate].
+  intros H; injection H as <-. unfold wt, with_params. cbn [pglobals pfns pmain].
+  assert (Hf : forall F G, wt_fn F G {| fname := fname d; fparams := ps'; fret := fret d; fbody := fbody d |} = false).
+  { intros F G. unfold wt_fn. cbn [fparams fret fbody fname].
+    unfold dup_param in Ed. destruct (N.to_nat (p_arg pos)) as [|j]; [discriminate|].
+    destruct (fparams d) as [|[x t] r]; [discriminate|].
+    cbv zeta in Ed. match type of Ed with (if ?c then _ else _) = _ => destruct c eqn:Q; [|discriminate] end.
+    injection Ed as <-. apply andb_true_iff in Q. destruct Q as [_ Q]. apply negb_true_iff in Q. cbn [rename_nth] in Q. rewrite Q.
+    rewrite andb_false_r. reflexivity. }
+  rewrite (replace_nth_forallb _ _ _ d _ En (Hf _ _)). rewrite andb_false_r. reflexivity.
+Qed.
+
+Lemma mut_main_param_ill : forall pos p p', mut_main_param pos p = Some p' -> wt p' = false.
+Proof.
+  intros pos p p'. unfold mut_main_param.
+  destruct (nth_error (pfns p) (p_fn pos)) as [d|]; [|discriminate].
+  destruct (N.eqb (fname d) (pmain p)); [|discriminate].
+  set (q := with_params p (p_fn pos) d ((p_arg pos, TInt) :: fparams d)).
+  destruct (slookup (pmain q) (sigs_of (pfns q))) as [[ps r]|] eqn:E.
+  - destruct ps as [|t0 ps].
+    + destruct r; try discriminate; intros H; injection H as <-; unfold wt; rewrite E; apply andb_false_r.
+    + intros H; injection H as <-. unfold wt. rewrite E. apply andb_false_r.
+  - intros H; injection H as <-. unfold wt. rewrite E. apply andb_false_r.
+Qed.
+
+Theorem mut_ill_typed_any : forall r pos p p', mut r pos p = Some p' -> wt p' = false.
+Proof.
+  intros r pos p p'. destruct r; unfold mut;
+    first [apply mut_in_body_ill | apply mut_dup_param_ill | apply mut_main_param_ill].
 Qed.
 
 (* the statement of the design: mutants of WELL-TYPED programs are ill-typed *)
